@@ -76,8 +76,8 @@ def run_common(ctx, prop, modules, l1_scripts, stride, nops):
         found_input = True
     if failed and not found_input:
         ctx.violation("lean-stage", "theorem(s) no longer check: %s\n%s" % (", ".join(failed), ctx.notes.get("lean_log_tail", "")), no_input=True)
-    ctx.sample({"l1_script_example": fa[0].script[:600] if fa else "(see tools/difftest_handle.py)"} if False else {"kind": "L1 history", "formats": "RAW/AU/WAV x 8-9 encodings x 4 endian options", "scripts": sa["scripts"]})
-    ctx.sample({"kind": "all-format read/seek history", "files": sb["files"], "histories": sb["histories"]})
+    ctx.sample(dict({"kind": "L1 history (model vs implementation)", "formats": "RAW/AU/WAV x 8-9 encodings x 4 endian options", "scripts": sa["scripts"]}, **ctx.notes.pop("l1_example", {})))
+    ctx.sample(dict({"kind": "all-format read/seek history (contract on the implementation transcript)", "files": sb["files"], "histories": sb["histories"]}, **ctx.notes.pop("allformat_example", {})))
     ctx.coverage["rule"] = ("A: seeded random histories (open/write/read/seek/commands/close/re-open in r, w, rw) on every RAW/AU/WAV encoding, transcript compared "
                             "byte for byte with the Lean handle model; B: for every (major, subtype, endian) the library accepts for writing x channel counts, a file written by the "
                             "library, one sequential reference read per caller type, then random read/seek histories whose every return value, data item and position probe is "
